@@ -69,7 +69,11 @@ def build_shot(p: Dict[str, Any]):
     else:
         atmo = m.Atmo(U.Foot(p.get("alt_ft", 0.0)), U.InHg(p.get("press_inhg", 29.92)), U.Fahrenheit(p.get("temp_f", 59.0)),
                       p.get("humidity", 0.0))
-    winds = [m.Wind(U.FPS(w[0]), U.Degree(w[1]), U.Foot(w[2])) for w in p.get("winds", [])]
+    # until-distances are handed over in rotating units (the library must order them by distance, not by number)
+    def until(i, ft):
+        un = [U.Foot, U.Yard, U.Meter, U.Inch][i % 4] if p.get("wind_units", True) else U.Foot
+        return un(U.Foot(ft) >> un)
+    winds = [m.Wind(U.FPS(w[0]), U.Degree(w[1]), until(i, w[2])) for i, w in enumerate(p.get("winds", []))]
     return m.Shot(weapon=weapon, ammo=ammo, look_angle=U.Degree(p.get("look_deg", 0.0)),
                   relative_angle=U.Radian(p.get("rel_rad", 0.0)), cant_angle=U.Degree(p.get("cant_deg", 0.0)),
                   atmo=atmo, winds=winds or None)
